@@ -17,6 +17,7 @@ final = load_tsv("RESULTS.tsv")
 r2 = load_tsv("RESULTS_round2.tsv")
 r3 = load_tsv("RESULTS_round3.tsv")
 r4 = load_tsv("RESULTS_round4.tsv")
+r5 = load_tsv("RESULTS_round5.tsv")
 def verdict(rs, own):
     mine = [x for x in rs if x["check"] == own]
     if not mine: return "not run"
@@ -25,7 +26,7 @@ def verdict(rs, own):
         others = [y["check"] for y in rs if y["check"] != own and y["exit_code"] == 1]
         return "missed" + (f" by {own}'s own check (caught by {'/'.join(sorted(set(others)))})" if others else "")
     return "caught, no input" if x["without_input"] else "caught with a concrete input"
-for d in sorted(glob.glob(os.path.join(ROOT, "seeded", "C??-?"))):
+for d in sorted(glob.glob(os.path.join(ROOT, "seeded", "C??-*")), key=lambda x: (os.path.basename(x).split("-")[0], int(os.path.basename(x).split("-")[1]))):
     id = os.path.basename(d)
     notes = open(d + "/notes.md").read() if os.path.exists(d + "/notes.md") else ""
     def sec(name):
@@ -36,10 +37,10 @@ for d in sorted(glob.glob(os.path.join(ROOT, "seeded", "C??-?"))):
     files = sorted(set(re.findall(r"^\+\+\+ b/(\S+)", open(d + "/patch.diff").read(), re.M)))
     old = json.load(open(d + "/meta.json")) if os.path.exists(d + "/meta.json") else {}
     n = int(id.split("-")[1])
-    rnd = 4 if n >= 7 else (3 if n >= 5 else (2 if n >= 3 else 1))
-    first = old.get("checks_run", {}).get("first_round") if rnd == 1 else verdict({2: r2, 3: r3, 4: r4}[rnd].get(id, []), id.split("-")[0])
+    rnd = 5 if n >= 9 else (4 if n >= 7 else (3 if n >= 5 else (2 if n >= 3 else 1)))
+    first = old.get("checks_run", {}).get("first_round") if rnd == 1 else verdict({2: r2, 3: r3, 4: r4, 5: r5}[rnd].get(id, []), id.split("-")[0])
     meta = {"id": id, "property": id.split("-")[0], "round": rnd, "title": title, "files_touched": files,
-            "origin": "written by an independent sub-agent that was given only the property text and a scratch git worktree of /repo (nothing from /verif)" + ("; second round, after the checks had been strengthened against the first 40" if rnd == 2 else ("; third round, after two rounds of strengthening" if rnd == 3 else ("; fourth round, after three rounds of strengthening" if rnd == 4 else ""))),
+            "origin": "written by an independent sub-agent that was given only the property text and a scratch git worktree of /repo (nothing from /verif)" + ("; second round, after the checks had been strengthened against the first 40" if rnd == 2 else ("; third round, after two rounds of strengthening" if rnd == 3 else ("; fourth round, after three rounds of strengthening" if rnd == 4 else ("; fifth round, after four rounds of strengthening" if rnd == 5 else "")))),
             "change": sec("Change"), "what_goes_wrong": sec("What goes wrong"),
             "needs_to_manifest": sec("Needs in order to manifest") or sec("Needs, in order to manifest") or sec("Needed to manifest") or sec("Needs"),
             "why_tests_miss": sec("Why the existing tests do not notice") or sec("Why the tests do not notice"),
